@@ -10,6 +10,7 @@ CHECKS = {
     'C02': ('C02_',),
     'C03': ('C03_',),
     'C13': ('C13_',),
+    'C17': ('C17_',),
     'C18': ('C18_',),
 }
 
@@ -19,6 +20,18 @@ MC = {
                       ('MC_Seq', dict(MaxOps=3, CheckVH='TRUE', MaxRestarts=0))],
             'thorough': [('MC_Seq', dict(MaxOps=5, CheckVH='FALSE', MaxRestarts=0)),
                          ('MC_Seq', dict(MaxOps=5, CheckVH='TRUE', MaxRestarts=0))]},
+    'C03': {'quick': [('MC_Seq', dict(MaxOps=5, WithGC='TRUE', FileMax=2, Vals='{1}', Revs='{0}', MaxChunk=3))],
+            'thorough': [('MC_Seq', dict(MaxOps=6, MaxRestarts=1, WithGC='TRUE', FileMax=2, Vals='{1}', Revs='{0}', MaxChunk=4)),
+                         ('MC_Seq', dict(MaxOps=5, MaxRestarts=0, WithGC='TRUE', FileMax=3, Vals='{1, 3}', Revs='{0}', MaxChunk=3, BodyMaxBlk=2))]},
+    'C18': {'quick': [('MC_Seq', dict(MaxOps=5, WithGC='TRUE', FileMax=2, Vals='{1}', Revs='{0}', MaxChunk=3, Mutants='{"KF7"}',
+                                      INVS='TypeOK C18_OnlyCurrent C18_Once NoFatal'))],
+            'thorough': [('MC_Seq', dict(KEYS='{"a"}', HASHIDS='{"ha"}', MaxOps=9, MaxRestarts=1, WithGC='TRUE', FileMax=2,
+                                         Vals='{1}', Revs='{0}', MaxChunk=4, Mutants='{"KF7"}',
+                                         INVS='TypeOK C18_OnlyCurrent C18_Once NoFatal')),
+                         ('MC_Seq', dict(MaxOps=6, MaxRestarts=1, WithGC='TRUE', FileMax=2, Vals='{1}', Revs='{0}', MaxChunk=4,
+                                         Mutants='{"KF7"}', INVS='TypeOK C18_OnlyCurrent C18_Once NoFatal'))]},
+    'C17': {'quick': [('MC_Seq', dict(MaxOps=4, WithGC='TRUE', FileMax=2, Vals='{1}', Revs='{0}', MaxChunk=3))],
+            'thorough': [('MC_Seq', dict(MaxOps=6, WithGC='TRUE', FileMax=2, Vals='{1}', Revs='{0}', MaxChunk=4))]},
     'C02': {'quick': [('MC_Seq', dict(MaxOps=3, CheckVH='FALSE', MaxRestarts=1))],
             'thorough': [('MC_Seq', dict(MaxOps=4, CheckVH='FALSE', MaxRestarts=2)),
                          ('MC_Seq', dict(MaxOps=5, CheckVH='FALSE', MaxRestarts=1, Vals='{1, 3}'))]},
@@ -37,13 +50,16 @@ CONSTANTS
   Collide = {Collide}
   MaxRestarts = {MaxRestarts}
   Mutants = {Mutants}
+  WithGC = {WithGC}
+  FileMax = {FileMax}
+  BodyMaxBlk = {BodyMaxBlk}
 CONSTRAINT Bound
 INVARIANTS {INVS}
 CHECK_DEADLOCK FALSE
 '''
 
 MC_DEFAULTS = dict(KEYS='{"a", "b"}', HASHIDS='{"ha", "hb"}', MaxChunk=3, Vals='{1, 2, 3}', Revs='{0, 5}',
-                   MaxOps=3, CheckVH='FALSE', Collide='FALSE', MaxRestarts=0, Mutants='{}',
+                   MaxOps=3, CheckVH='FALSE', Collide='FALSE', MaxRestarts=0, Mutants='{}', WithGC='FALSE', FileMax=3, BodyMaxBlk=1,
                    INVS='TypeOK C01_ReadMap NoFatal C02_NoLostAck')
 
 
